@@ -114,6 +114,63 @@ def ensemble (fp : FpConsts α) (ens : String) (reps : List (Rep α)) (gap : Int
           nTauint := nTau, nDtauint := nDtau,
           margin := minAbs ((List.range W).map (fun k => g (k + 1))) }
 
+/-- `ensemble` with the Γ table as a parameter (same text): `ensemble_eq_analyse` shows by `rfl` that
+    `ensemble = analyse` applied to the table of `gamma reps gap` -/
+def analyse (fp : FpConsts α) (ens : String) (eN : α) (wmax : Nat) (Gtab : List α)
+    (S tauExp nSigma : α) : Except GmErr (EnsResult α) :=
+  let G : Nat → α := fun t => Gtab.getD t 0
+  let zero : List α := List.replicate wmax 0
+  if absS (G 0) < fp.tenTiny then
+    .ok { ens := ens, tauint := fp.half, dtauint := 0, dvalue := 0, ddvalue := 0, windowsize := 0,
+          rho := zero, drho := zero, nTauint := [], nDtauint := [], margin := 1 }
+  else
+  let rhoL : List α := Gtab.map (· / G 0)
+  let rho : Nat → α := fun t => rhoL.getD t 0
+  -- τ(W) = 1/2 + Σ_{t=1}^{W} ρ(t), clamped above 1/2
+  let tauRaw : Nat → α := fun W => fp.half + sum ((List.range W).map (fun t => rho (t + 1)))
+  let nTau : List α := (List.range wmax).map (fun W =>
+    if tauRaw W ≤ fp.half then fp.half + fp.eps else tauRaw W)
+  let tau : Nat → α := fun W => nTau.getD W 0
+  let dtau : Nat → α := fun W =>
+    if W = 0 then 0 else tau W * 2 * sqrt (absS (ofNatS W + fp.half - tau W) / eN)
+  let drho : Nat → α := fun i => sqrt (drhoSq rho wmax eN i)
+  let bias : Nat → α := fun W => tau W * (1 + (2 * ofNatS W + 1) / eN) / (1 + 1 / eN)
+  let nDtau := (List.range wmax).map dtau
+  if 0 < tauExp then
+    if wmax / 2 ≤ 1 then .error .tauExpTooShort else
+    -- first n in 1 .. wmax/2 - 1 with ρ(n) - Nσ δρ(n) < 0, or n ≥ wmax/2 - 2
+    let stop : Nat → Bool := fun n => rho n - nSigma * drho n < 0 ∨ (n : Int) ≥ ((wmax / 2 : Nat) : Int) - 2
+    match (List.range (wmax / 2 - 1)).find? (fun k => stop (k + 1)) with
+    | none => .error .tauExpTooShort
+    | some k =>
+      let W := k + 1
+      let t := bias W + tauExp * absS (rho (W + 1))
+      let dt := sqrt (dtau W * dtau W + tauExp * tauExp * (drho (W + 1) * drho (W + 1)))
+      let dv := sqrt (2 * t * G 0 * (1 + 1 / eN) / eN)
+      .ok { ens := ens, tauint := t, dtauint := dt, dvalue := dv,
+            ddvalue := dv * sqrt ((ofNatS W + fp.half) / eN), windowsize := W,
+            rho := rhoL,
+            drho := (List.range wmax).map (fun i => if 1 ≤ i ∧ i ≤ W + 1 then drho i else 0),
+            nTauint := nTau, nDtauint := nDtau,
+            margin := minAbs ((List.range W).map (fun k => rho (k + 1) - nSigma * drho (k + 1))) }
+  else if isZero S then
+    let dv := sqrt (G 0 / (eN - 1))
+    .ok { ens := ens, tauint := fp.half, dtauint := 0, dvalue := dv,
+          ddvalue := dv * sqrt (fp.half / eN), windowsize := 0,
+          rho := rhoL, drho := zero, nTauint := nTau, nDtauint := nDtau, margin := 1 }
+  else
+    if wmax ≤ 1 then .error .tauExpTooShort else
+    let tauS : Nat → α := fun n => S / log ((2 * tau n + 1) / (2 * tau n - 1))
+    let g : Nat → α := fun n => exp (-(ofNatS n) / tauS n) - tauS n / sqrt (ofNatS n * eN)
+    let W := window g wmax
+    let t := bias W
+    let dv := sqrt (2 * t * G 0 * (1 + 1 / eN) / eN)
+    .ok { ens := ens, tauint := t, dtauint := dtau W, dvalue := dv,
+          ddvalue := dv * sqrt ((ofNatS W + fp.half) / eN), windowsize := W,
+          rho := rhoL, drho := (List.range wmax).map (fun i => if i = W then drho i else 0),
+          nTauint := nTau, nDtauint := nDtau,
+          margin := minAbs ((List.range W).map (fun k => g (k + 1))) }
+
 /-- largest lag considered: half of the longest chain measured in units of the spacing -/
 def wMax (reps : List (Rep α)) (gap : Int) : Nat :=
   (Py.fdiv ((reps.map (fun r => rLength r.idl gap)).foldl max 0) 2).toNat
